@@ -181,7 +181,9 @@ def run(R: vlib.Run):
               "earliest channel), 32-bit samples of either sign and all negative; open-ended selections (nsamps=None) from every start incl. the last sample, "
               "both statistics modes; distinct = (api, depth, split, start, nsamps, gulp, dm); non-trivial = more than one block read")
     R.trusted += ["Coq 8.16.1 kernel + vm_compute", "tools/py2coq (kernels, read_plan arithmetic and base.py call sites regenerated each run)",
-                  "hand glue 'for each yielded block call the kernel with these arguments' (Model/C06_pipe.v), tied by the correspondence run",
+                  "hand glue 'for each yielded block call the kernel with these arguments' (Model/C06_pipe.v, C06_pipe_more.v), tied by the correspondence run "
+                  "(collapse, bandpass, dedisperse, statistics, read_chan at 8 bits; collapse, bandpass, dedisperse, read_chan through the unpack kernels at 1/2/4 bits)",
+                  "32-bit data: the theorems hold for every item width and every decoding of an item to an integer (C06_*_items); that numpy's float32 view is such a decoding is trusted",
                   "sample values are integers (float32 sums exact, as the property stipulates)"]
     R.assume += ["float32 accumulation is exact on the generated integer data", "read_plan delivers the blocks proved in C01 (composed theorem uses C01's plan facts)",
                  "depths are {1,2,4,8,32} as the property states: 16-bit files are outside it (the streaming kernels have no uint16 signature and raise TypeError)",
@@ -193,6 +195,7 @@ def run(R: vlib.Run):
     d = os.path.join(vlib.SCRATCH, f"c06_{os.getpid()}")
     os.makedirs(d, exist_ok=True)
     corr = []
+    corr2 = []     # read_chan (8 bit) and the packed pipelines (1/2/4 bit: plan o generated unpack kernels o reductions): Model/C06_pipe_more.v pipe_eval_more
     try:
         Nmax = 7 if R.tier == "quick" else 11
         for nbits in (1, 2, 4, 8, 32):
@@ -205,6 +208,12 @@ def run(R: vlib.Run):
                 # band chosen so that small DMs give delays of a few samples
                 paths = filutil.write_fil_set(os.path.join(d, f"f{nbits}_{nf}"), x, nbits, splits, fch1=400.0, foff=-20.0, tsamp=0.001, vary_header=(nf == 3))
                 fil = FilReader(paths)
+                packed = None
+                if nbits in (1, 2, 4):      # the data bytes as they are on disk (all files of the set, in order) and the bit order the reader unpacks with
+                    from sigpyproc.io import bits as _bits
+                    bounds = [0] + list(splits) + [N]
+                    rawb = b"".join(open(p_, "rb").read()[-((bounds[i_ + 1] - bounds[i_]) * nch * nbits // 8):] for i_, p_ in enumerate(paths))
+                    packed = (list(rawb), _bits.BitsInfo(nbits).bitorder[0] == "b")
                 dms = [0.0]
                 seen = {0}
                 for dm in np.linspace(0.02, 1.2, 40):
@@ -233,6 +242,8 @@ def run(R: vlib.Run):
                                 R.fail(f"collapse-{tag}-values", "collapse != sum over channels", dict(base, got=np.asarray(r.data).tolist()[:12]))
                             if k == "ok" and nbits == 8:
                                 corr.append(("collapse", x, splits, gulp, start, nsamps, 0, [], np.asarray(r.data).astype(np.int64).tolist()))
+                            if k == "ok" and packed:
+                                corr2.append((5, packed, nch, N, nbits, gulp, start, nsamps, 0, [], np.asarray(r.data).astype(np.int64).tolist()))
                             # bandpass
                             R.case(("bandpass", nbits, nf, start, nsamps, gulp), nontrivial=multi, regime="bandpass")
                             k, r = call(fil.bandpass, gulp=gulp, start=start, nsamps=nsamps, quiet=True)
@@ -247,6 +258,8 @@ def run(R: vlib.Run):
                                        dict(base, other_gulp=bp0[0], got=np.asarray(r.data).tolist(), other=bp0[1].tolist()))
                             if k == "ok" and nbits == 8:
                                 corr.append(("bandpass", x, splits, gulp, start, nsamps, 0, [], np.rint(np.asarray(r.data, dtype=np.float64) * nsamps).astype(np.int64).tolist()))
+                            if k == "ok" and packed:
+                                corr2.append((8, packed, nch, N, nbits, gulp, start, nsamps, 0, [], np.rint(np.asarray(r.data, dtype=np.float64) * nsamps).astype(np.int64).tolist() + [nsamps]))
                             # read_chan
                             ich = int(rng.randrange(nch))
                             R.case(("read_chan", nbits, nf, start, nsamps, gulp, ich), nontrivial=multi, regime="read_chan")
@@ -256,6 +269,10 @@ def run(R: vlib.Run):
                             elif r.data.shape != (nsamps,) or not np.array_equal(r.data, want[:, ich]):
                                 R.fail(f"read_chan-{tag}-values", "read_chan != the channel's column of the selected samples",
                                        dict(base, ichan=ich, got_len=int(r.data.shape[0])))
+                            if k == "ok" and nbits == 8:
+                                corr2.append((4, (x.ravel().tolist(), False), nch, N, 8, gulp, start, nsamps, ich, [], np.asarray(r.data).astype(np.int64).tolist()))
+                            if k == "ok" and packed:
+                                corr2.append((7, packed, nch, N, nbits, gulp, start, nsamps, ich, [], np.asarray(r.data).astype(np.int64).tolist()))
                             # statistics
                             for mode, fn in (("full", fil.compute_stats), ("basic", fil.compute_stats_basic)):
                                 R.case(("stats", mode, nbits, nf, start, nsamps, gulp), nontrivial=multi, regime="stats_" + mode)
@@ -314,6 +331,8 @@ def run(R: vlib.Run):
                                            dict(base, got_len=int(r.data.shape[0]), want_len=outlen, got=np.asarray(r.data).tolist()[:12], want=wantd.tolist()[:12]))
                                 if k == "ok" and nbits == 8:
                                     corr.append(("dedisperse", x, splits, gulp, start, nsamps, md, delays.tolist(), np.asarray(r.data).astype(np.int64).tolist()))
+                                if k == "ok" and packed:
+                                    corr2.append((6, packed, nch, N, nbits, gulp, start, nsamps, md, delays.tolist(), np.asarray(r.data).astype(np.int64).tolist()))
         # ---- open-ended selections: nsamps left to its default (None) with start > 0 ------------------------
         for nbits in (8, 32, 2):
             nch = NCH[nbits]; N = Nmax
@@ -408,6 +427,41 @@ def run(R: vlib.Run):
                 api, x, splits, gulp, start, nsamps, md, delays, out = sh[bi]
                 R.disagree("composed Gallina pipeline and Filterbank." + api + " differ",
                            {"api": api, "x": x.tolist(), "gulp": gulp, "start": start, "nsamps": nsamps, "delays": delays, "impl": out})
+        # ---- correspondence, part 2: read_chan and the packed pipelines (Model/C06_pipe_more.v) ----------------
+        R.need(["Model/C06_pipe_more.vo"])
+        rng.shuffle(corr2)
+        by_api = {}
+        for c2 in corr2:
+            by_api.setdefault(c2[0], []).append(c2)
+        quota = 80 if R.tier == "quick" else 500
+        corr2 = [c2 for a in sorted(by_api) for c2 in by_api[a][:quota]]
+        names = {4: "read_chan", 5: "collapse (packed)", 6: "dedisperse (packed)", 7: "read_chan (packed)", 8: "bandpass (packed)"}
+        per2 = 250
+        for si in range(0, len(corr2), per2):
+            sh = corr2[si:si + per2]
+            rows = []
+            for api, (xs, big), nch, N, nbits, gulp, start, nsamps, md, delays, out in sh:
+                rows.append(f"({api}, {vlib.zlist(xs)}, ({nch}, {N}, {nbits}, {'true' if big else 'false'}), ({gulp}, {start}, {nsamps}), ({md}, {vlib.zlist(delays)}), {vlib.zlist(out)})")
+            v = ["From Coq Require Import ZArith List Bool.", "Require Import SPP.Base.Rt SPP.Model.C06_pipe_more.", "Import ListNotations.", "Open Scope Z_scope.",
+                 "Definition cases : list (Z * list Z * (Z * Z * Z * bool) * (Z * Z * Z) * (Z * list Z) * list Z) := [", ";\n".join(rows), "].",
+                 "Definition ok (c : Z * list Z * (Z * Z * Z * bool) * (Z * Z * Z) * (Z * list Z) * list Z) : bool :=",
+                 "  let '(api, xs, (nch, N, nbits, big), (gulp, start, nsamps), (md, dl), out) := c in",
+                 "  list_eqb (pipe_eval_more api xs nch N nbits big gulp start nsamps md (of_list dl)) out.",
+                 "Definition idx := map fst (filter (fun p => negb (ok (snd p))) (combine (seq 0 (length cases)) cases)).",
+                 "Eval vm_compute in (length cases, idx)."]
+            rc, outp = vlib.coq_run(f"c06m_{si // per2}", "\n".join(v), timeout=600)
+            vals = vlib.parse_eval(outp)
+            if rc != 0 or not vals:
+                R.red.append("correspondence: Corr/c06m did not evaluate: " + outp[-400:])
+                continue
+            nums = [int(z) for z in re.findall(r"(\d+)%nat", vals[0])]
+            R.extra_cov["traces_validated_against_impl"] = R.extra_cov.get("traces_validated_against_impl", 0) + (nums[0] if nums else 0)
+            R.extra_cov["packed_and_read_chan_pipelines_validated"] = R.extra_cov.get("packed_and_read_chan_pipelines_validated", 0) + (nums[0] if nums else 0)
+            for bi in nums[1:4]:
+                api, (xs, big), nch, N, nbits, gulp, start, nsamps, md, delays, out = sh[bi]
+                R.disagree("composed Gallina pipeline and Filterbank." + names[api] + " differ",
+                           {"api": names[api], "nbits": nbits, "nchans": nch, "N": N, "data_bytes": xs, "big_endian_bits": big, "gulp": gulp, "start": start,
+                            "nsamps": nsamps, "ichan_or_maxdelay": md, "delays": delays, "impl": out})
     finally:
         shutil.rmtree(d, ignore_errors=True)
 
